@@ -446,6 +446,9 @@ func runC07(ctx *core.Ctx, out *core.Out) {
 	}
 	r := ctx.R
 	checkAlloc := ctx.Variant == "plain"
+	if ctx.Variant == "plain" && ctx.Idx%60 == 1 {
+		c07StalledWriter(ctx, out)
+	}
 	report := func(sig, what, entry string, cfg byte, input []byte) {
 		out.Violate(sig, what, map[string]interface{}{"entry_point": entry, "cfg": cfg, "input_hex": fmt.Sprintf("%x", input), "input": fmt.Sprintf("%q", input)})
 	}
@@ -591,4 +594,53 @@ func tail2(s string, n int) string {
 		return "..." + s[len(s)-n:]
 	}
 	return s
+}
+
+// c07StalledWriter: bytes from the peer (a ping, a close, and a mutated variant of
+// them) arrive while another goroutine is stalled inside the transport's Write.
+// The read call must come back (the handlers' writes are best effort with a
+// one-second limit); still blocked 30 s later = hang.
+func c07StalledWriter(ctx *core.Ctx, out *core.Out) {
+	r := gen.For(ctx.Seed, "c07/stalled", ctx.Idx)
+	cfg := genCfg(r)
+	a, b := xport.NewPipe()
+	gate := make(chan struct{})
+	a.Gate = gate
+	a.GateIf = func(p []byte) bool { return len(p) > 0 && p[0]&0x0f <= 2 }
+	a.Gated = make(chan struct{}, 1)
+	defer close(gate)
+	c := newConn(a, cfg, nil, 0)
+	go c.WriteMessage(2, []byte("the peer stopped reading"))
+	select {
+	case <-a.Gated:
+	case <-time.After(20 * time.Second):
+		out.Inconcl("stalled-writer probe: the writer never reached the transport")
+		return
+	}
+	mk := func(op int, p []byte) []byte {
+		return wire.Append(nil, wire.Frame{Fin: true, Op: op, Masked: cfg.Server, Key: [4]byte{1, 1, 2, 3}, Payload: p})
+	}
+	in := append(mk(9, []byte("ping")), mk(8, wire.MkClose(1000+r.Intn(4), ""))...)
+	if r.Bool() {
+		in = append(mk(10, nil), in...)
+	}
+	res := make(chan error, 1)
+	go func() {
+		for {
+			if _, _, err := c.ReadMessage(); err != nil {
+				res <- err
+				return
+			}
+		}
+	}()
+	b.Write(in)
+	out.Count("stalled_writer_probes", 1)
+	out.Eval(fmt.Sprintf("stalled|%s|%x", cfg, in), true)
+	select {
+	case <-res:
+	case <-time.After(30 * time.Second):
+		out.Violate("C07:read-hangs-behind-stalled-writer", "a ping and a close from the peer arrived while another goroutine was stalled inside the transport's Write; the read call is still blocked 30 s later", map[string]interface{}{"cfg": cfg, "input_hex": fmt.Sprintf("%x", in)})
+	}
+	a.Close()
+	b.Close()
 }
